@@ -342,12 +342,23 @@ class Arm(Machine):
             self.r[i] = junk[i % len(junk)] & 0xFFFFFFFF
         self.r[13] = STACK_TOP
         self.r[14] = RET | 1
+        self.abi_extra = []
         self.r[0], self.r[1], self.r[2] = a0, a1, a2
         self.saved = {i: self.r[i] for i in (4, 5, 6, 7, 8, 9, 10, 11, 13)}
 
+    def alu_write_pc(self, v, mn):
+        """A data-processing instruction writing pc: fine for jumps inside the routine, but as the function
+        return it does not interwork (ARM state before ARMv7, and Thumb state always, stay in the current
+        instruction set), while the AAPCS wants every return to reach a caller in either state: bx, or a load
+        into pc."""
+        r = self.jump_addr(v)
+        if r == "ret" and not self.thumb1:      # the ARMv6-M file only ever runs on Thumb-only cores: nothing to interwork with
+            self.abi_extra.append("returns through `%s pc, ...`, which does not interwork with a caller in the other instruction set (AAPCS: bx lr or a load into pc)" % mn)
+        return r
+
     def abi_check(self):
         names = {4: "r4", 5: "r5", 6: "r6", 7: "r7", 8: "r8", 9: "r9", 10: "r10", 11: "fp", 13: "sp"}
-        return ["callee-saved register %s not restored" % names[i] for i, v in self.saved.items() if self.r[i] != v]
+        return list(self.abi_extra) + ["callee-saved register %s not restored" % names[i] for i, v in self.saved.items() if self.r[i] != v]
 
     def rd(self, i, here):
         if i == 15:
@@ -430,7 +441,7 @@ class Arm(Machine):
                 b = self.op2(o[2:], here)
                 v = {"eor": a ^ b, "and": a & b, "orr": a | b, "bic": a & ~b, "add": a + b, "sub": a - b}[base] & 0xFFFFFFFF
             if d == 15:
-                return self.jump_addr(v)
+                return self.alu_write_pc(v, mn)
             R[d] = v
             if setflags:
                 self.setnz(v)
@@ -440,7 +451,7 @@ class Arm(Machine):
                 v = ~v & 0xFFFFFFFF
             d = self.reg(o[0])
             if d == 15:
-                return self.jump_addr(v)
+                return self.alu_write_pc(v, mn)
             R[d] = v
             if setflags:
                 self.setnz(v)
